@@ -1,7 +1,7 @@
 SPECIFICATION Spec
 CONSTANTS
-  MaxMembers = 3
-  MaxGhosts = 1
-  AllItems = FALSE
+  MaxMembers = 2
+  MaxGhosts = 2
+  AllItems = TRUE
 INVARIANTS Emit NoClash
 CHECK_DEADLOCK FALSE
